@@ -652,6 +652,22 @@ def js(v):
     return C.jsonable(v)
 
 
+def pinned_mismatches():
+    t = table()
+    pinned = pinned_declarations()
+    out = []
+    for name, d in t["decls"].items():
+        if name in pinned:
+            if sorted(d["required"]) != pinned[name]["required"] or sorted(optional_names(d)) != pinned[name]["optional"]:
+                out.append({"slice": "declarations.pinned", "why": f"{name}: declared required {sorted(d['required'])} optional {sorted(optional_names(d))}; "
+                            f"pinned required {pinned[name]['required']} optional {pinned[name]['optional']}", "desc": {"fn": name}, "line": "",
+                            "impl": str(sorted(d["required"])), "model": str(pinned[name]["required"])})
+    for name in pinned:
+        if name not in t["decls"]:
+            out.append({"slice": "declarations.pinned", "why": f"{name}: no longer a layer-aware function", "desc": {"fn": name}, "line": "", "impl": "-", "model": "declared"})
+    return out
+
+
 def correspond(ctx):
     C.import_smrt()
     rng = ctx.np
@@ -708,6 +724,8 @@ def correspond(ctx):
     adhoc_cases(ctx, co)
     iba_cases(ctx, co)
     passive_cases(ctx, co)
+    co.disagreements.extend(pinned_mismatches())
+    co.note("declarations compared with those pinned from the audited tree")
     return co
 
 
@@ -1016,11 +1034,55 @@ def witness_cases():
     return out
 
 
+def pinned_declarations():
+    """required / optional layer properties of every layer-aware function as declared in the audited tree (committed, never regenerated
+    at run time): what "required" means in the statement does not move with the code"""
+    import pathlib
+    f = pathlib.Path(__file__).resolve().parent / "pinned" / "C14_declarations.json"
+    return json.loads(f.read_text()) if f.exists() else {}
+
+
+def check_pinned_required(name, d, prop, rng):
+    """a property that the audited tree declares as required is absent from the layer: a clear error, never a silent fall-back"""
+    out = []
+    for kind, base in base_layers(rng).items():
+        spec = json.loads(json.dumps(base))
+        try:
+            lay = build_layer(spec)
+        except Exception:  # noqa
+            continue
+        st = {r: required_value(rng, r) for r in d["required"] if not hasattr(lay, r) and r != prop}
+        spec["set"], spec["del"] = st, [prop]
+        try:
+            lay = build_layer(spec)
+        except Exception:  # noqa
+            continue
+        if hasattr(lay, prop):
+            continue
+        pos = [10e9] if d["params"][:1] == ["frequency"] else []
+        extra = {p: complex(3.0, 0.1) for p in ("e0", "eps") if p in d["params"]}
+        through = outcome(lambda: d["fn"](*pos, layer_to_inject=lay, **extra))
+        if through[0] == "ok":
+            out.append(("missing-required-silent", f"'{prop}' (a required layer property of {name} in the audited tree) is absent from a {kind} layer but a "
+                        f"value is returned", show(through), "an exception naming the missing attribute", kind))
+            break
+    return out
+
+
 def oracle(ctx, hints, effort):
     C.import_smrt()
     rng = ctx.np
     t = table()
     findings, evals = [], 0
+    pinned = pinned_declarations()
+    for name, d in t["decls"].items():
+        if d["fn"] is None or name not in pinned:
+            continue
+        for prop in sorted(set(pinned[name]["required"]) - set(d["required"])):
+            evals += 1
+            for r in check_pinned_required(name, d, prop, rng):
+                findings.append(Finding(f"{d['module']}.{d['name']}:{r[0]}", f"{d['name']}: {r[1]}", {"kind": "pinned-required", "fn": name, "prop": prop},
+                                        r[2], r[3]))
 
     def run(case):
         nonlocal evals
@@ -1108,6 +1170,10 @@ def oracle(ctx, hints, effort):
 
 def replay(inp, rp=None):
     C.import_smrt()
+    if inp.get("kind") == "pinned-required":
+        d = table()["decls"][inp["fn"]]
+        rs = check_pinned_required(inp["fn"], d, inp["prop"], np.random.default_rng(0))
+        return Finding(f"{d['module']}.{d['name']}:{rs[0][0]}", rs[0][1], inp, rs[0][2], rs[0][3]) if rs else None
     if inp.get("kind") == "update-sequence":
         r = check_update_sequence(inp["seed"])
         return None if r is None else Finding(r[0], r[1], inp, r[2], r[3])
